@@ -342,6 +342,20 @@ def register(reg):
                  modifies=[])
     units['LatexEnvironmentBodyContentsParserInfo.stop_token_condition'] = FunctionUnit(c)
 
+    # the body parser made for a \\begin{name} token waits for the \\end of THAT name -- also when the spec is the catch-all
+    # one for undeclared environments, whose own environmentname is ''
+    def setup_mkbody(it):
+        spec = new_obj(it, 'pylatexenc.macrospec._specclasses.EnvironmentSpec',
+                       {'environmentname': sym_str(it, 'spec.environmentname'), 'macroname': None, 'specials_chars': None,
+                        'arguments_spec_list': PyList([])}, tag='self')
+        tok = mk_token(it, 'begin_environment', sym_str(it, 'token.arg'), 0, 1, '')
+        return {'self': spec, 'token': tok, 'nodeargd': None, 'arg_parsing_state_delta': None}
+    c = Contract('pylatexenc.macrospec._specclasses.CallableSpec.make_body_parser', setup=setup_mkbody,
+                 ensures=[('a-body-parser-for-the-environment-named-by-the-token',
+                           "type(result).__name__ == 'LatexEnvironmentBodyContentsParser' and result.environmentname == token.arg")],
+                 modifies=[])
+    units['CallableSpec.make_body_parser'] = FunctionUnit(c)
+
     # ---- the call parsers: node = (call token, arguments object, body) ------------------------------------------------------------------------------
     def setup_call(it):
         ctx = it.ctx
